@@ -3,7 +3,8 @@
    Start, together with its derivation events  <<"enter"|"leave", NodeKind, tokenIndex>>.
    One behaviour = one leftmost derivation; the terminal state prints one SENT line.        *)
 EXTENDS GqlGrammar, Json
-CONSTANTS MaxTok, Start, TS, FV
+CONSTANTS MaxTok, Start, TS, FV,
+          Prefix      \* focus: only sentences whose first tokens are Prefix (<<>> = no focus)
 VARIABLES stack, out, ev, ban
 vars == <<stack, out, ev, ban>>
 Init == stack = <<N(Start)>> /\ out = <<>> /\ ev = <<>> /\ ban = ""
@@ -38,8 +39,9 @@ BanStep == /\ top[1] = "Ban"
            /\ UNCHANGED <<out, ev>>
 Next == stack # <<>> /\ (Expand \/ Enter \/ Leave \/ OptStep \/ PlusStep \/ StarStep \/ Shift \/ BanStep)
 Spec == Init /\ [][Next]_vars
-Bound == Len(out) + MinLen(stack) <= MaxTok
-Emit == stack = <<>> => PrintT("SENT " \o ToJson([toks |-> out, ev |-> ev]))
+Bound == /\ Len(out) + MinLen(stack) <= MaxTok
+         /\ \A i \in 1..Len(out) : i <= Len(Prefix) => out[i] = Prefix[i]
+Emit == (stack = <<>> /\ Len(out) >= Len(Prefix)) => PrintT("SENT " \o ToJson([toks |-> out, ev |-> ev]))
 \* R1: derivation events are balanced and token indices are monotone
 RECURSIVE Balanced(_, _)
 Balanced(e, st) == IF e = <<>> THEN st = <<>>
